@@ -150,8 +150,28 @@ def c25_history(k: int) -> bool:
     return guard(body, k=k)
 
 
+def c25_kernel(k: int) -> bool:
+    """
+    post: _
+    """
+    def body():
+        from vp.core import assume
+        from vp.harness import dbkern as K
+        pi, pc, pb = K.sym_pickers()
+        case = K.rb_case(pc, pb, SL())
+        assume(K.rb_invariant(case))
+        assume(case["valid"][case["target"]])
+        return K.rb_run_fake(case) == K.rb_expected(case)
+    return guard(body, k=k)
+
+
 _NO = len(OPS)
 CONDITIONS = [
+    Condition(c25_kernel, slices=[0, 1, 2], timeout=250, thorough_timeout=900,
+              bounds="one rollback step of the real rollback_handle / is_valid_handle on the S4 session from an ARBITRARY handle graph "
+                     "of 4 states (any DAG edges among same-name states, symbolic validity bits, states of another handle name "
+                     "allowed) satisfying 'a state derived from an invalid state is invalid'; slice = state rolled back to (valid); "
+                     "afterwards exactly its strict descendants became invalid, nothing else changed"),
     Condition(c25_history, slices=[(3, (a,)) for a in range(5)] + [(4, p) for p in ((0, 2, 5), (2, 2, 5), (2, 0, 6), (0, 4, 5), (2, 5, 2))],
               thorough_slices=[(4, (a, b)) for a in range(5) for b in range(_NO)] + [(5, (a, b, c)) for a in (0, 2) for b in (0, 2, 4) for c in (5, 6)],
               timeout=250, thorough_timeout=2400,
@@ -160,7 +180,26 @@ CONDITIONS = [
 ]
 
 
+def self_test(seed):
+    from vp.harness import dbkern as K
+    return {"S4_vs_sqlite_agreeing_cases": K.differential("rb", seed)}
+
+
+def warmup(cond):
+    if cond == "c25_kernel":
+        from vp.harness import dbkern as K
+        K.warm("rb")
+
+
 def replay(cond, args, extra):
+    if cond == "c25_kernel":
+        from vp.harness import dbkern as K
+        pi, pc, pb = K.replay_pickers(extra["choices"])
+        case = K.rb_case(pc, pb, extra["slice"])
+        if not (K.rb_invariant(case) and case["valid"][case["target"]]):
+            return False, "pre-state outside the invariant", None
+        got, want = K.rb_run_real(case), K.rb_expected(case)
+        return got != want, "rollback on the real SQLite backend from %r left validity %r, the lineage model says %r" % (case, got, want), None
     items = list(extra["choices"])
     n, first = extra["slice"]
     nops = n - len(first)
